@@ -405,6 +405,9 @@ func QualifierParser(prefix string) pars.Parser {
 				if qtype != UnknownQualifier {
 					return valueParsers[qtype](state, result)
 				}
+				// No form fits what follows the name: this is no qualifier.
+				// (Going on here would make one out of the name itself.)
+				return pars.NewError("expected a qualifier value or the end of the line", state.Position())
 			}
 		}
 
